@@ -46,63 +46,69 @@ def run(ctx, chk):
         variant = opv[1][3]
         if variant == 'Invalid':
             continue
-        ers = sp.emit(enc)
-        if len(ers) != 1 or ers[0].status != 'ok':
-            chk.fail('C02.1', name, 'encode_op does not produce exactly one code sequence (%s)'
-                     % [(r.status, r.detail) for r in ers][:2], efile, None)
-            continue
-        try:
-            summ = em.summarise_emit(ers[0], rm)
-        except absint.Abort as e:
-            chk.error('emitter summary for %s: %s' % (name, e.why))
-            continue
+        cases, bad = sp.emit_cases(enc)
+        if bad or not cases:
+            chk.fail('C02.1', name + ':emit', 'encode_op does not complete for every operand value (%s)'
+                     % [(r.status, str(r.detail)[:80]) for r in bad][:2], efile, None)
         if cy is None or cy % 4:
             chk.fail('C02.2', name, 'decoder clock count %s not a multiple of 4' % cy, None, None)
+            fits = False
         else:
+            fits = True
+        for label, er, cons in cases:
+            cname = name + label
+            try:
+                summ = em.summarise_emit(er, rm)
+            except absint.Abort as e:
+                chk.error('emitter summary for %s: %s' % (cname, e.why))
+                continue
             over = [t for t in summ['templates'] if t['spec']['kind'] == 'cycles' and
                     (t['args'][0][0] != 'c' or t['args'][0][2] > 127)]
             if over:
-                chk.fail('C02.2', name, 'cycle increment does not fit a sign-extended imm8', efile, over[0]['site'][1])
-            else:
-                chk.ok('C02.2', name, nontrivial=False)
-        paths = [osp.summarise_interp(r) for r in sp.interp(enc)]
-        okp = [p for p in paths if p['result'].status == 'ok']
-        if not okp:
-            chk.fail('C02.1', name, 'interpreter has no completing path', None, None)
-            continue
-        groups = {}
-        for p in okp:
-            if p['cycles_extra'] is None:
-                chk.fail('C02.1', name, 'interpreter cycle delta is not a constant: %s' % fmt(p['regs']['cycles']), None, None)
+                fits = None
+                chk.fail('C02.2', cname, 'cycle increment does not fit a sign-extended imm8', efile, over[0]['site'][1])
+            paths = [osp.summarise_interp(r) for r in sp.interp(enc, cons, label)]
+            okp = [p for p in paths if p['result'].status == 'ok']
+            if not okp:
+                chk.fail('C02.1', cname, 'interpreter has no completing path', None, None)
                 continue
-            icyc = cy // 4 + p['cycles_extra']
-            ecyc, why = emitter_cycles_for(summ, p['cond'])
-            outcome = 'uncond'
-            if summ['span'] is not None:
-                bit = FLAGBIT.get(summ['span']['mask'])
-                outcome = '%s=%s' % (bit, p['cond'].get(bit))
-            groups.setdefault(outcome, set()).add((icyc, ecyc, why))
-        for outcome, vals in sorted(groups.items()):
-            key = name if outcome == 'uncond' else '%s:%s' % (name, outcome)
-            badv = [v for v in vals if v[2] or v[0] != v[1]]
-            ref = sm83.TABLE[enc]
-            if badv:
-                i, e, why = badv[0]
-                line = None
-                for t in summ['templates']:
-                    if t['spec']['kind'] == 'cycles':
-                        line = t['site'][1]
-                chk.fail('C02.1', key, '%s: interpreter charges %s machine cycles, emitted code charges %s%s'
-                         % (ref['mn'], i, e, (' (' + why + ')') if why else ''), efile, line,
-                         {'interp': i, 'emitter': e, 'outcome': outcome})
-            else:
-                i, e, _ = next(iter(vals))
-                chk.ok('C02.1', key, sample={'opcode': name, 'outcome': outcome, 'interp_cycles': i,
-                                             'emitter_cycles': e} if (enc[1] % 41 == 0 or outcome != 'uncond') else None)
-        # an emitted conditional span with an interpreter that never depends on the flag (or vice versa)
-        if summ['span'] is None and len(set(p['cycles_extra'] for p in okp)) > 1:
-            chk.fail('C02.1', name + ':shape', 'interpreter cycles depend on a condition, emitted code has no branch',
-                     efile, None)
+            groups = {}
+            for p in okp:
+                if p['cycles_extra'] is None:
+                    chk.fail('C02.1', cname, 'interpreter cycle delta is not a constant: %s' % fmt(p['regs']['cycles']),
+                             None, None)
+                    continue
+                icyc = cy // 4 + p['cycles_extra']
+                ecyc, why = emitter_cycles_for(summ, p['cond'])
+                outcome = 'uncond'
+                if summ['span'] is not None:
+                    bit = FLAGBIT.get(summ['span']['mask'])
+                    outcome = '%s=%s' % (bit, p['cond'].get(bit))
+                groups.setdefault(outcome, set()).add((icyc, ecyc, why))
+            for outcome, vals in sorted(groups.items()):
+                key = cname if outcome == 'uncond' else '%s:%s' % (cname, outcome)
+                badv = [v for v in vals if v[2] or v[0] != v[1]]
+                ref = sm83.TABLE[enc]
+                if badv:
+                    i, e, why = badv[0]
+                    line = None
+                    for t in summ['templates']:
+                        if t['spec']['kind'] == 'cycles':
+                            line = t['site'][1]
+                    chk.fail('C02.1', key, '%s%s: interpreter charges %s machine cycles, emitted code charges %s%s'
+                             % (ref['mn'], (' (operands ' + label[1:] + ')') if label else '', i, e,
+                                (' (' + why + ')') if why else ''), efile, line,
+                             {'interp': i, 'emitter': e, 'outcome': outcome, 'operands': label})
+                else:
+                    i, e, _ = next(iter(vals))
+                    chk.ok('C02.1', key, sample={'opcode': cname, 'outcome': outcome, 'interp_cycles': i,
+                                                 'emitter_cycles': e} if (enc[1] % 41 == 0 or outcome != 'uncond') else None)
+            # an emitted conditional span with an interpreter that never depends on the flag (or vice versa)
+            if summ['span'] is None and len(set(p['cycles_extra'] for p in okp)) > 1:
+                chk.fail('C02.1', cname + ':shape', 'interpreter cycles depend on a condition, emitted code has no branch',
+                         efile, None)
+        if fits:
+            chk.ok('C02.2', name, nontrivial=False)
     # rule 3: writers of Registers.cycles
     allowed = {'interpreter::run_next_op', 'interpreter::interp_jump', 'interpreter::interp_jump_relative',
                'interpreter::interp_call', 'interpreter::interp_return', 'emulator::Core::handle_interrupt',
